@@ -57,7 +57,7 @@ def value_pool(ns, P):
     # values equal to literal members but built at run time (other objects than the constants in the annotation)
     built = ["".join(["alpha", "-", "beta"]), int("65536"), "".join(["alpha", "-", "bet"]), int("65537")]
     # instances of subclasses of int / str (an IntEnum member, a user's own int and str subclasses): they are ints / strs
-    built += [_IntE.SEVEN, _Port(8080), _Tagged("sub"), coll0, coll1]
+    built += [_IntE.SEVEN, _Port(8080), _Tagged("sub"), coll0, coll1, ns[f"{P}NAbc"](v=6)]
     base = [True, False, 0, 1, 2, 1.5, "", "x", "a", None, C.RED, C.GREEN, n0, n1, fz, l0] + built
     pool = list(base)
     pool.append(())
@@ -93,7 +93,7 @@ def run_shard(ctx):
     U = Universe(f"verif_c13_{P}", [], prelude_extra=AG.PRELUDE.replace("{P}", P) + AG.POSTLUDE.replace("{P}", P))
     U.exec()
     ns = U.module.__dict__
-    env = {"Color": ns[f"{P}Color"], "N0": ns[f"{P}N0"], "N1": ns[f"{P}N1"], "Fz": ns[f"{P}Fz"], "L0": ns[f"{P}L0"], "Coll": ns[f"{P}Coll"]}
+    env = {"Color": ns[f"{P}Color"], "N0": ns[f"{P}N0"], "N1": ns[f"{P}N1"], "Fz": ns[f"{P}Fz"], "L0": ns[f"{P}L0"], "Coll": ns[f"{P}Coll"], "NAbc": ns[f"{P}NAbc"]}
     pool = value_pool(ns, P)
     ctx.extra["accepted_d1"] = len(d1)
     ctx.extra["pool_size"] = len(pool)
